@@ -155,7 +155,7 @@ def main(modname, argv):
     for it in items:
         st, res = results[it["name"]]
         if st != "ok":
-            agg["inconclusive"].append("%s: %s" % (it["name"], ("timeout after %ss" % res) if st == "timeout" else ("harness error: " + str(res)[-600:])))
+            agg["inconclusive"].append("%s: %s" % (it["name"], ("timeout after %ss" % res) if st == "timeout" else ("harness error: " + str(res).split("\n")[0][:300] + " | " + str(res)[-700:].replace("\n", " / "))))
             per_item.append(dict(item=it["name"], status=st))
             continue
         n_ok += 1
